@@ -329,8 +329,12 @@ def run_query(q):
     res["witness_ok"] = witness_ok
     res["failures"] = fails["assertion"] + fails["memory"]
     res["ub_info"] = fails["info"]
-    if fails["unwind"]:
-        res.update(verdict="error", detail="unwinding assertion failed: bound too small: " + json.dumps(fails["unwind"][:3]))
+    real_unwind = [f for f in fails["unwind"] if not f["description"].startswith("status ")]
+    undecided = [f for f in fails["unwind"] if f["description"].startswith("status ")]
+    if real_unwind:
+        res.update(verdict="error", detail="unwinding assertion failed: bound too small: " + json.dumps(real_unwind[:3]))
+    elif undecided and not res["failures"]:
+        res.update(verdict="noverdict", detail="solver left %d properties undecided (%s)" % (len(undecided), undecided[0]["description"]))
     elif res["failures"]:
         res["verdict"] = "fail"
         res["qdir"] = qdir
